@@ -472,18 +472,17 @@ func checkCoupling(c *core.Ctx) {
 			if cal == nil || core.FuncPkg(cal) != pk || !isDescentCallee(cal) {
 				continue
 			}
-			// the child node argument
-			var node ssa.Value
+			// the node arguments: the child - and, when the callee also wants to know where it came from, the parent
+			var nodes []ssa.Value
 			for i, a := range ci.Common().Args {
 				if i == 0 && cal.Signature.Recv() != nil {
 					continue
 				}
-				if isNodeType(a.Type()) {
-					node = a
-					break
+				if isNodeType(a.Type()) && !core.IsNilConst(a) {
+					nodes = append(nodes, a)
 				}
 			}
-			if node == nil || core.IsNilConst(node) {
+			if len(nodes) == 0 {
 				continue
 			}
 			// the append that feeds this descent: the latest one that can reach it
@@ -493,7 +492,18 @@ func checkCoupling(c *core.Ctx) {
 				}
 				n++
 				seg := ap.Call.Args[len(ap.Call.Args)-1]
-				ok, why := coupledAt(p, fn, seg, node, 0, ci)
+				// one of the nodes handed down must be the child the appended segment leads to
+				ok, why := false, ""
+				for _, node := range nodes {
+					o, w := coupledAt(p, fn, seg, node, 0, ci)
+					if o {
+						ok, why = true, w
+						break
+					}
+					if why == "" {
+						why = w
+					}
+				}
 				c.Check(ok, fmt.Sprintf("%s#descent%d->%s", core.FuncKey(fn), n, cal.Name()), p.Pos(ci.Pos()), "segment and child coupled: "+why, "the segment appended to Progress.Path and the child node handed to "+cal.Name()+" do not originate together ("+why+"): the path reported at the child's visit addresses a different node")
 			}
 		}
